@@ -4,9 +4,9 @@
   case = {"transport": {"kind": "fake", "tbl": [normal, unser, big]}            (wampdrv fake ITransport, scripted send)
                      | {"kind": "ws"|"rs", "role": "server"|"client", "ser": "json"|"msgpack"|"cbor", "limit": 512},
           "ecls": [[cls, uri], ...], "ops": [op, ...]}
-  op   = ["reg", reg, wants_details, is_coro] | ["unreg", reg] | ["inv", req, reg, payload, caller, rp, beh]
+  op   = ["reg", reg, wants_details, is_coro (, check_types, "ok"|"short"|"ill", signature kind)] | ["unreg", reg] | ["inv", req, reg, payload, caller, rp, beh]
        | ["int", req] | ["res", k, result] | ["prog", k, payload] | ["lose"] | ["turn"]
-  payload = ["val", id, unser, big] | ["none"] | ["empty"];  retval = ["plain", p] | ["cr", p]
+  payload = ["val", id, unser, big (, target octets of the serialized YIELD/ERROR; real transports)] | ["none"] | ["empty"];  retval = ["plain", p] | ["cr", p]
   exn = ["app", u, p] | ["other", cls, p];  result = ["ok", retval] | ["err", exn]
   beh = {"pre": [payload, ...], "fin": ["ret", retval] | ["raise", exn] | ["pend"]}
   sres (table entries) = "sent" | "ser" | "exc" | ["other", "TypeError" | "ValueError" | ...]
@@ -79,8 +79,20 @@ else:
 
 
 # ---- payload tokens <-> python values ---------------------------------------------------------------------------
-def tok(p):
+def tok(p, fit=None):
+    """python value of a payload token.  p = ["val", id, unser, big] or ["val", id, unser, big, target]: with a
+    target the token is padded so that the message built by fit(token) serializes to exactly `target` octets
+    (fit = function token -> serialized length, supplied where the message around the token is known)."""
     assert p[0] == "val", p
+    if len(p) > 4 and p[4] and fit is not None:
+        mark = "B" if p[3] else "S"          # the flag travels in the pad's first character
+        n = max(1, p[4] - fit(["T", p[1], mark]) + 1)
+        for _ in range(64):
+            t = ["T", p[1], mark + "y" * (n - 1)]
+            d = fit(t) - p[4]
+            if d == 0: return t
+            n = max(1, n - d)
+        raise RuntimeError("cannot build a message of exactly %d octets" % p[4])
     return ["T", p[1]] + ([BIG] if p[3] else []) + ([U()] if p[2] else [])
 
 
@@ -89,7 +101,7 @@ def untok(lst):
     if not (isinstance(lst, (list, tuple)) and len(lst) >= 2 and lst[0] == "T" and isinstance(lst[1], int)):
         return ["bad", repr(lst)[:80]]
     rest = list(lst[2:])
-    big = any(isinstance(x, str) and len(x) >= 600 for x in rest)
+    big = any(isinstance(x, str) and (x.startswith("B") or (not x.startswith("S") and len(x) >= 600)) for x in rest)
     unser = any(isinstance(x, U) or (isinstance(x, dict) and x.get("$obj") == "U") for x in rest)
     return ["val", lst[1], unser, big]
 
@@ -112,7 +124,7 @@ def dec_payload(args, kwargs):
     return False, ["bad", repr(args)[:80]]
 
 
-URIS = {"wamp.error.runtime_error": ["runtime"], "wamp.error.invalid_payload": ["invalid_payload"],
+URIS = {"wamp.error.type_check_error": ["type_check"], "wamp.error.runtime_error": ["runtime"], "wamp.error.invalid_payload": ["invalid_payload"],
         "wamp.error.payload_size_exceeded": ["payload_exceeded"]}
 
 
@@ -376,20 +388,26 @@ def run_case(case):
             raise
     sess.onMessage = onMessage
 
-    C = {"nextk": 0, "by_arg": {}, "k_of_arg": {}, "fut": {}, "det": {}, "regs": {}, "info": {}}
+    C = {"nextk": 0, "by_arg": {}, "k_of_arg": {}, "fut": {}, "det": {}, "regs": {}, "info": {}, "req_of_k": {}}
 
-    def mkexc(e):
+    def slen(msg):
+        return len(link.ser.serialize(msg)[0]) if real else 0
+
+    def mkexc(e, req=0):
         if e[0] == "app":
             p = e[2]
-            if p[0] == "empty": return ApplicationError("com.err.u%d" % e[1])
-            return ApplicationError("com.err.u%d" % e[1], *tok(p), kw=p[1])
+            uri = "com.err.u%d" % e[1]
+            if p[0] == "empty": return ApplicationError(uri)
+            t = tok(p, (lambda t: slen(message.Error(68, req, uri, args=list(t), kwargs={"kw": p[1]}))) if real else None)
+            return ApplicationError(uri, *t, kw=p[1])
         p = e[2]
         return ecls(e[1])(*(tok(p) if p[0] != "empty" else []))
 
-    def mkret(r):
+    def mkret(r, req=0):
         kind, p = r
         if kind == "plain":
-            return None if p[0] == "none" else tok(p)
+            if p[0] == "none": return None
+            return tok(p, (lambda t: slen(message.Yield(req, args=[t]))) if real else None)
         return CallResult() if p[0] == "empty" else CallResult(*tok(p), kw=p[1])
 
     def call_progress(det, k, p, inside):
@@ -408,8 +426,8 @@ def run_case(case):
             L.append(["prograised", k, type(e).__name__])
             if inside: raise
 
-    def body_start(a, kw, reg, wants):
-        det = kw.pop("details", None) if wants else None
+    def body_start(a, kw, det, reg):
+        """what the endpoint received: positional tuple a, keyword dict kw (without the details), details det"""
         single, p = dec_payload(a, kw)
         argid = p[1] if p[0] == "val" else None
         k = C["k_of_arg"].get(argid, -1)
@@ -417,29 +435,46 @@ def run_case(case):
         L.append(["called", k, info.get("req", -1), reg, p if not single else ["bad", "single"],
                   None if det is None else [getattr(det, "caller", None), callable(getattr(det, "progress", None))]])
         C["det"][k] = det
+        C["req_of_k"][k] = info.get("req", 0)
         beh = C["by_arg"].get(argid, {"pre": [], "fin": ["ret", ["plain", ["none"]]]})
         for pp in beh["pre"]:
             call_progress(det, k, pp, True)
         return k, beh
 
-    def make_ep(reg, wants, coro):
-        if coro:
-            async def ep(*a, **kw):
-                k, beh = body_start(a, kw, reg, wants)
-                fin = beh["fin"]
-                if fin[0] == "ret": return mkret(fin[1])
-                if fin[0] == "raise": raise mkexc(fin[1])
-                f = txaio.create_future(); C["fut"][k] = f
-                return await f
-        else:
-            def ep(*a, **kw):
-                k, beh = body_start(a, kw, reg, wants)
-                fin = beh["fin"]
-                if fin[0] == "ret": return mkret(fin[1])
-                if fin[0] == "raise": raise mkexc(fin[1])
-                f = txaio.create_future(); C["fut"][k] = f
-                return f
-        return ep
+    def finish(k, beh):
+        """-> ("ret", value) | ("fut", future); raises for a raising endpoint"""
+        fin = beh["fin"]
+        req = C["req_of_k"].get(k, 0)
+        if fin[0] == "ret": return "ret", mkret(fin[1], req)
+        if fin[0] == "raise": raise mkexc(fin[1], req)
+        f = txaio.create_future(); C["fut"][k] = f
+        return "fut", f
+
+    # signature kinds: (parameter list, expression for the positional tuple, expression for the keyword dict).
+    # The session calls fn("T", id, kw=id [, details=CallDetails]); every endpoint reports exactly what it was given.
+    SIGS = {
+        "fixed":    ("t{T}, i{I}, kw, details=None",             "(t, i)",            "{'kw': kw}"),
+        "defaults": ("t{T}, i{I}, kw=None, extra=5, details=None", "(t, i) + ((('extra', extra),) if extra != 5 else ())", "{'kw': kw}"),
+        "varargs":  ("t{T}, *rest, kw=None, details=None",        "(t,) + tuple(rest)", "{'kw': kw}"),
+        "varkw":    ("t{T}, i{I}, **opts",                       "(t, i)",            "dict(opts)"),
+        "both":     ("*a, **opts",                               "tuple(a)",          "dict(opts)"),
+        "kwonly":   ("t{T}, i{I}, *, kw, details=None",          "(t, i)",            "{'kw': kw}"),
+        "short":    ("t{T}, details=None",                       "(t,)",              "{}"),
+    }
+
+    def make_ep(reg, wants, coro, sig="ok", kind="both"):
+        params, aexpr, kexpr = SIGS["short" if sig == "short" else kind]
+        params = params.replace("{T}", ": int" if sig == "ill" else ": str").replace("{I}", ": int")
+        takes_opts = "**opts" in params
+        lines = ["%sdef ep(%s):" % ("async " if coro else "", params),
+                 "    _a, _k = %s, %s" % (aexpr, kexpr),
+                 "    _d = _k.pop('details', None)" if takes_opts else "    _d = details",
+                 "    k, beh = body_start(_a, _k, _d, REG)",
+                 "    what, v = finish(k, beh)",
+                 "    return (await v) if what == 'fut' else v" if coro else "    return v"]
+        ns = {"body_start": body_start, "finish": finish, "REG": reg}
+        exec("\n".join(lines), ns)
+        return ns["ep"]
 
     def fill():
         """pair the send() placeholders with the messages the transport wrote, in order"""
@@ -461,10 +496,12 @@ def run_case(case):
         kind = op[0]
         L.append(["op", opi])
         if kind == "reg":
-            _, reg, wants, coro = op
+            reg, wants, coro = op[1:4]
+            check, sig, skind = (op[4:7] if len(op) >= 7 else (False, "ok", "both"))
             try:
-                sess.register(make_ep(reg, wants, coro), "com.p%d" % reg,
-                              options=RegisterOptions(details_arg="details") if wants else None)
+                sess.register(make_ep(reg, wants, coro, sig, skind), "com.p%d" % reg,
+                              options=RegisterOptions(details_arg="details") if wants else None,
+                              check_types=True if check else None)
             except BaseException:
                 pass                    # TransportLost after the transport went away: API error, nothing to observe
             else:
@@ -509,8 +546,8 @@ def run_case(case):
             f = C["fut"].get(k)
             if f is not None:
                 try:
-                    if r[0] == "ok": txaio.resolve(f, mkret(r[1]))
-                    else: txaio.reject(f, txaio.create_failure(mkexc(r[1])))
+                    if r[0] == "ok": txaio.resolve(f, mkret(r[1], C["req_of_k"].get(k, 0)))
+                    else: txaio.reject(f, txaio.create_failure(mkexc(r[1], C["req_of_k"].get(k, 0))))
                 except BaseException:
                     pass                # AlreadyCalledError / InvalidStateError: the user's problem, nothing observable
         elif kind == "prog":
